@@ -11,8 +11,12 @@ static uint8_t *res_base; static size_t res_len; static uint8_t *file_base; stat
 static char oob_msg[256];
 void *vf_mmap(void *addr, size_t len, int prot, int flags, int fd, off_t off);
 int vf_munmap(void *addr, size_t len);
+static int inject_mmap_failure;
 void *vf_mmap(void *addr, size_t len, int prot, int flags, int fd, off_t off) {
-	(void) addr; (void) prot; (void) flags; (void) off;
+	/* be faithful to the environment first: if the real mapping would fail (directory, descriptor not readable, injected fault),
+	 * the library must see MAP_FAILED */
+	if (inject_mmap_failure) { errno = ENOMEM; return MAP_FAILED; }
+	{ void *probe = mmap(addr, len, prot, flags, fd, off); if (probe == MAP_FAILED) return MAP_FAILED; munmap(probe, len); }
 	size_t page = 4096, data_pages = (len + page - 1) / page * page;
 	if (data_pages == 0) data_pages = page;
 	res_len = GUARD + data_pages + GUARD;
@@ -186,6 +190,19 @@ int main(int argc, char **argv) {
 		ocase c = { "synthetic", magic, (long) l, fill, 0, 0, buf, l }; RUN(c);
 	}
 	vh_sig(vh_mix(6, 0));
+	/* 8. the mapping itself fails: injected ENOMEM on every seed, a directory opened by path, a descriptor that is not readable */
+	for (int s = 0; s < NSEED; s++) { if (!only && !MINE()) continue; inject_mmap_failure = 1; ocase c = { "mmap-enomem", s, 0, 0, 0, 0, seed_b[s], seed_l[s] }; RUN(c); inject_mmap_failure = 0; }
+	if (only ? !strncmp(only, "O:mmap-env", 10) : vh_shard == 0) {
+		static ocase c = { "mmap-env", 0, 0, 0, 0, 0, NULL, 0 }; vh_case_begin(render, &c); oob_msg[0] = 0;
+		sigjmp_buf jb; struct mtbl_reader *r = NULL;
+		if (VH_TRY_ASSERT(jb)) { r = mtbl_reader_init("/proc/self", NULL); VH_END_ASSERT(); if (r) { vh_violation("dir-opened", "mtbl_reader_init on a directory returned a reader"); mtbl_reader_destroy(&r); } } else drop_mapping();
+		if (VH_TRY_ASSERT(jb)) { r = mtbl_reader_init("/usr", NULL); VH_END_ASSERT(); if (r) mtbl_reader_destroy(&r); } else drop_mapping();
+		{ char p[300]; snprintf(p, sizeof p, "%s/wronly.%d", getenv("VERIF_SCRATCH_DIR") ? getenv("VERIF_SCRATCH_DIR") : "/var/tmp", (int) getpid()); int fd = open(p, O_CREAT | O_WRONLY | O_TRUNC, 0600); if (fd >= 0) { if (write(fd, seed_b[1], seed_l[1]) < 0) {} if (VH_TRY_ASSERT(jb)) { r = mtbl_reader_init_fd(fd, NULL); VH_END_ASSERT(); if (r) mtbl_reader_destroy(&r); } else drop_mapping(); close(fd); unlink(p); } }
+		if (oob_msg[0]) vh_violation("out-of-file-read", "after a failed mapping: %s", oob_msg);
+		VH_COUNT("cases", 3); VH_COUNT("transitions", 3); VH_COUNT("mmap_env_cases", 3);
+		vh_case_end();
+	}
+	vh_sig(vh_mix(8, 0));
 	/* 7. a fixed family of pseudo-random files (deterministic generator, not sampled at run time): random bodies with either magic,
 	 *    and valid seeds whose whole trailer (or whose index block) is overwritten with generator output */
 	for (int fam = 0; fam < 3; fam++) for (uint32_t id = 0; id < (vh_thorough ? 20000u : 3000u); id++) {
